@@ -206,6 +206,16 @@ def check_single(d, ck):
             ck.run("positive", c, lambda: +base, {(0,): a, (1,): b}, d, d)
         ck.run("sum", c, lambda: numpoly.sum(base, axis=0), {(0,): numpy.sum(a, axis=0), (1,): numpy.sum(b, axis=0)},
                numpy.sum(a, axis=0).dtype, d)
+    # products accumulate like numpy.prod: narrow integers in the platform integer
+    xe = edge(d)[:2]
+    pe = numpoly.polynomial_from_attributes([[1]], [xe])
+    if pe.dtype == numpy.dtype(d):
+        with warnings.catch_warnings(), numpy.errstate(all="ignore"):
+            warnings.simplefilter("ignore")
+            want = numpy.prod(xe)
+            ck.run("prod", c, lambda: numpoly.prod(pe), {(2,): want}, want.dtype, d)
+            want = numpy.prod(xe.reshape(2, 1), axis=0)
+            ck.run("prod(axis)", c, lambda: numpoly.prod(pe.reshape(2, 1), axis=0), {(2,): want}, want.dtype, d)
 
 
 def check_pair(d1, d2, ck):
@@ -320,6 +330,14 @@ def check_pair(d1, d2, ck):
                 except Exception:
                     continue
                 ck.run(name, c, call, want, want[(0,)].dtype, lab)
+            pm = numpoly.polynomial_from_attributes([[1]], [e1[:2]])
+            try:
+                want = numpy.prod(e1[:2], dtype=d2)
+            except Exception:
+                want = None
+            if want is not None and pm.dtype == numpy.dtype(d1):
+                ck.run("prod(dtype=)", c, lambda: numpoly.prod(pm, dtype=d2), {(2,): want}, want.dtype, lab)
+                ck.run("method-prod(dtype=)", c, lambda: pm.prod(dtype=d2), {(2,): want}, want.dtype, lab)
             y1 = edge(d1, 1)
             py = numpoly.polynomial_from_attributes([[0], [1]], [y1, e1], retain_coefficients=True)
             for name, uf in (("add(dtype=)", "add"), ("subtract(dtype=)", "subtract")):
